@@ -33,9 +33,8 @@ import GoBk.Proofs.CheckedLemmas
 
   OUTSIDE THE MODEL (see the header of Model/Checked.lean): slice capacity, `int` overflow, the
   internals of the standard library and big.Int, `crypto/ecdsa.Verify`, `sort.SearchStrings`,
-  `strings.Fields`, `regexp`; the curve arithmetic below `ScalarBaseMult`'s table row index; the
-  index expressions inside `ExtendedKey.Child`, which `DeriveChildFromPath` calls (modelled by the
-  total `Bip32.child`).  `crypto.Decrypt` takes an arbitrary `cipher.Block`: the model is an AES
+  `strings.Fields`, `regexp`; the curve arithmetic below `ScalarBaseMult`'s table row index (field
+  and Jacobian code, NAF/splitK of `ScalarMult`).  `crypto.Decrypt` takes an arbitrary `cipher.Block`: the model is an AES
   block (`BlockSize() = 16`).  With a block cipher of another block size (e.g. DES) or a nil
   interface `cipher.NewCFBDecrypter` panics for every ciphertext of ≥ 16 bytes — `ivCheck` makes
   the assumption explicit.  `bip39.English` is an exported mutable variable; the model fixes it to
@@ -139,11 +138,38 @@ theorem fromStringC_agrees (pr : Prims) (s : Bytes) : fromStringC pr s = ofExcep
 theorem fromStringC_total (pr : Prims) (s : Bytes) : fromStringC pr s ≠ .panic := by
   rw [fromStringC_eq]; exact ofExcept_ne_panic _
 
-/-- `childInt` / `DeriveChildFromPath`: no index expression (strings.Split, regexp, TrimRight,
-ParseUint, `range`); the transcription IS the total model, so these two are by definition -/
+/-- `childInt`: no index expression (HasSuffix, TrimRight, ParseUint); the transcription IS the
+total model, so this one holds by definition -/
 theorem childIndexC_total (c : Bytes) : childIndexC c ≠ .panic := ofOption_ne_panic _
+
+/-- `ExtendedKey.Child(i)`: `copy(data[offset:], k.key)` for every key length (0, short, 32, 33,
+longer), `PutUint32(data[keyLen:], i)`, `ilr[:len(ilr)/2]`, `ParsePubKey(k.key)` — for ANY
+primitives and any (even malformed) extended key -/
+theorem childC_total (pr : Prims) (k : Bip32.XKey) (i : Nat) : childC pr k i ≠ .panic :=
+  childC_ne_panic pr k i
+
+/-- agreement with the total model, which splits the HMAC-SHA512 output at byte 32 where the Go
+code splits at `len(ilr)/2`: needs the output length 64 (`PrimsOK.hmac512_len`) -/
+theorem childC_agrees (pr : Prims) (h512 : ∀ key m, (pr.hmac512 key m).length = 64)
+    (k : Bip32.XKey) (i : Nat) : childC pr k i = ofExcept (Bip32.child pr k i) :=
+  childC_eq pr h512 k i
+
+/-- `DeriveChildFromPath`: `strings.Split`, regexp, a `range` loop calling `childInt` and `Child` -/
 theorem derivePathC_total (pr : Prims) (k : Bip32.XKey) (p : Bytes) : derivePathC pr k p ≠ .panic :=
-  ofExcept_ne_panic _
+  derivePathC_ne_panic pr k p
+
+theorem derivePathC_agrees (pr : Prims) (h512 : ∀ key m, (pr.hmac512 key m).length = 64)
+    (k : Bip32.XKey) (p : Bytes) :
+    derivePathC pr k p = ofExcept (Bip32.deriveChildFromPath pr k p) :=
+  derivePathC_eq pr h512 k p
+
+/-- the hypothesis is satisfiable -/
+example : ∃ pr : Prims, ∀ key m, (pr.hmac512 key m).length = 64 :=
+  ⟨{ sha256 := id, sha512 := id, ripemd160 := id, hmac256 := fun _ m => m,
+     hmac512 := fun _ m => (m ++ List.replicate 64 7).take 64,
+     pbkdf2_512 := fun p _ _ _ => p, cbcEnc := fun _ _ x => x, cbcDec := fun _ _ x => x,
+     cfbEnc := fun _ _ x => x, cfbDec := fun _ _ x => x, b64enc := id, b64dec := some },
+   fun _ m => by simp⟩
 
 theorem deriveNumberC_agrees (p : Bytes) : deriveNumberC p = ofOption (Bip32.deriveNumber p) :=
   deriveNumberC_eq p
@@ -219,7 +245,10 @@ open GoBk.Props.C15
 #print axioms fromStringC_total
 #print axioms fromStringC_agrees
 #print axioms childIndexC_total
+#print axioms childC_total
+#print axioms childC_agrees
 #print axioms derivePathC_total
+#print axioms derivePathC_agrees
 #print axioms deriveNumberC_total
 #print axioms deriveNumberC_agrees
 #print axioms mnemonicToSeedC_total
